@@ -760,6 +760,16 @@ impl<'a> Interp<'a> {
                         P_C06,
                         format!("{}: quiescent, resident keys {:?} != charged keys {:?}", what, sk, pk),
                     );
+                    // C01 bounds the cost of the *resident* entries through their charges: an entry
+                    // that is resident without being charged is outside that bound
+                    let free: Vec<u64> = sk.iter().copied().filter(|k| !pk.contains(k)).collect();
+                    if !free.is_empty() {
+                        self.fail(
+                            "resident_uncharged",
+                            P_C01,
+                            format!("{}: quiescent, entries {:?} are resident but not charged: their cost is not counted against max_cost {}", what, free, snap.max_cost),
+                        );
+                    }
                 }
             }
             // C08 conservation
